@@ -518,7 +518,8 @@ def main(argv):
         ev = build_evidence(pid, tier, seed, obs, results, n_ok, real_violations, known, undecided, kani_cmd, kani_wall, overlay_diff,
                             time.time() - t_start)
         os.makedirs(EVID_DIR, exist_ok=True)
-        with open(os.path.join(EVID_DIR, pid + ".json"), "w") as f:
+        # partial runs (--only) never overwrite the evidence of record
+        with open(os.path.join(EVID_DIR, (".partial-" if a.only else "") + pid + ".json"), "w") as f:
             json.dump(ev, f, indent=1)
         # ---- verdict ----
         for o, path, confirmed in real_violations:
